@@ -24,6 +24,10 @@ def gen_cases(rng, tier):
             h = gens.hist(rng, max_faces=4, frac_p=0.1)
             hi = 12 if tier == "quick" else (40 if len(h) <= 3 else 14)
             m = rng.choice([-2, -1, 0, 0, 1, 1, 2, 2, 3, 4, 5, rng.randint(6, hi)])
+            if rng.random() < 0.12:
+                # larger repetition counts (powers of two and their neighbours, multiples of 16) on small dice
+                h = gens.hist(rng, max_faces=2, frac_p=0.0, style=rng.choice(["unit", "pos"]))
+                m = rng.choice([15, 16, 17, 31, 32, 33, 48, 64])
             c = {"kind": "matmul_h", "n": m, "h": h, "m2": rng.randint(1, 4)}
             if rng.random() < 0.3:
                 # the repetition count in other numeric types: integral ones are accepted, non-integral rejected
